@@ -70,7 +70,9 @@ def signature(ctx, F, cfg):
                 tables[path] = (sorted(enc.items()), sorted((repr(k), v) for k, v in dec.items()))
         except FT.Unreadable:
             tables[path] = "unreadable"
-    consts = {p: c.get("val") for p, c in F.consts.items() if c.get("pv") == "user" and not p.endswith("::_")}
+    import re as _re
+    # rustc prints constants that live in memory (&[&str], &[T]) by allocation id, which is not a value: compare their type only
+    consts = {p: _re.sub(r"alloc_id: alloc\d+", "alloc_id: <alloc>", c.get("val") or "") for p, c in F.consts.items() if c.get("pv") == "user" and not p.endswith("::_")}
     return sig, tables, consts
 
 
